@@ -4,6 +4,7 @@ import itertools
 
 import numpy as np
 
+from . import argforms_a as af
 from . import qc
 from .common import bits, unbits
 from .qc import torch
@@ -26,6 +27,9 @@ REQUIRED_THEOREMS = ['C01_hidden_marginal', 'C01_normSq_psi_positive', 'C01_norm
 RULE = ("case = (state kind, n, h, parameter scale, parameters); generated with every weight/bias = scale*N(0,1) "
         "(scale in {0,0.1,1,3,10,30}, plus overflow probes at scale 100 / 300 that are compared in the LOG domain); all 2^n basis states evaluated in the "
         "batched form, in the vector form (every row) and in a rank-3 batch-of-batches form; "
+        "argument forms (round 5): the constructor sizes num_visible / num_hidden (state and BinaryRBM constructors), `gpu`, the `size` of "
+        "generate_hilbert_space and the normalisation `Z` handed to probability are drawn per case from a seeded stream (`aseed`: Python int, "
+        "numpy integer scalars, 0-d numpy / torch integers; bool singleton, 0/1, numpy bools, 0-d bool arrays / tensors; keyword and positional); "
         "each case is evaluated, then re-parametrised IN PLACE and evaluated again on the same state object and the same space tensors (history); non-trivial iff some visible bias != 0 and some hidden bias != 0 and (h != n or scale >= 1); distinct by hash of the case")
 
 
@@ -52,26 +56,49 @@ def log_marginal(p, v):
     return float(m + np.log(np.exp(terms - m).sum()))
 
 
-def one_case(ctx, kind, n, h, scale, am, ph, tag=None, am2=None, ph2=None):
+def one_case(ctx, kind, n, h, scale, am, ph, tag=None, am2=None, ph2=None, aseed=None):
     """evaluate at (am, ph); then, on the SAME state object and the SAME space tensors, overwrite the parameters with
-    (am2, ph2) and evaluate again (history: results must follow the current parameters, not earlier calls)"""
-    st = qc.make_positive(n, h, am) if kind == "pos" else qc.make_complex(n, h, am, ph)
+    (am2, ph2) and evaluate again (history: results must follow the current parameters, not earlier calls).
+    `aseed`: seed of the case's argument-form stream (harness/argforms_a.py); None = plain Python ints / bools by keyword (cases stored before round 5)"""
+    A = af.Args(aseed)
+    base = {"kind": kind, "n": n, "h": h, "scale": scale, "am": am, "ph": ph}
+    if aseed is not None:
+        base["aseed"] = aseed
+    ctx.current_case = base
+    st = af.make_positive(A, n, h, am) if kind == "pos" else af.make_complex(A, n, h, am, ph)
+    if not af.check_sizes(ctx, st, (n, h), base, A, f"{kind}/ctor-sizes", "C01_hidden_marginal / C01_normalization (stated for the architecture n x h the caller asked for)"):
+        return
     rows = qc.all_states(n)
     space_t = torch.tensor(rows, dtype=torch.double)
-    gen_space = st.generate_hilbert_space()
-    _eval(ctx, st, rows, space_t, gen_space, kind, n, h, scale, am, ph, None)
+    if aseed is None:
+        gen_space = st.generate_hilbert_space()
+    else:
+        # the `size` argument in the case's form, by keyword or positionally (size = n: the space the normalisation is summed over), and one
+        # other size m (the enumeration of "all 2^m basis states" must not depend on the object that denotes m; 0 means "default": n)
+        gen_space = st.generate_hilbert_space(A.i(n)) if A.coin(0.5) else st.generate_hilbert_space(size=A.i(n))
+        m = A.choice([x for x in range(0, 7) if x != n])
+        (mo, md) = A.i_desc(m)
+        sp_m = st.generate_hilbert_space(mo) if A.coin(0.5) else st.generate_hilbert_space(size=mo)
+        want = qc.all_states(m if m else n)
+        ctx.oracle("generate_hilbert_space(size) == all 2^size basis states in counting order", bool(sp_m.dtype == torch.double and sp_m.tolist() == [[float(x) for x in r] for r in want]),
+                   base, detail={"size": md, "shape": list(sp_m.shape)}, sig=f"{kind}/hilbert-space-size",
+                   theorem="C01_normalization (the sum is over the whole basis: QV.Model.Hilbert.allStates)")
+    A.count_into(ctx)
+    _eval(ctx, st, rows, space_t, gen_space, kind, n, h, scale, am, ph, None, aseed, A)
     if am2 is not None:
         qc.set_rbm(st.rbm_am, am2)
         if kind == "cplx":
             qc.set_rbm(st.rbm_ph, ph2)
         ctx.count("history:reparametrised-same-objects")
-        _eval(ctx, st, rows, space_t, gen_space, kind, n, h, scale, am2, ph2, {"am": am, "ph": ph})
+        _eval(ctx, st, rows, space_t, gen_space, kind, n, h, scale, am2, ph2, {"am": am, "ph": ph}, aseed, A)
 
 
-def _eval(ctx, st, rows, space_t, gen_space, kind, n, h, scale, am, ph, before):
+def _eval(ctx, st, rows, space_t, gen_space, kind, n, h, scale, am, ph, before, aseed=None, A=None):
     case = {"kind": kind, "n": n, "h": h, "scale": scale, "am": am, "ph": ph}
     if before is not None:
         case = {"kind": kind, "n": n, "h": h, "scale": scale, "am": before["am"], "ph": before["ph"], "am2": am, "ph2": ph}
+    if aseed is not None:
+        case["aseed"] = aseed
     ctx.current_case = case
     # ---------------- implementation values
     E = st.rbm_am.effective_energy(space_t).numpy().copy()
@@ -108,9 +135,12 @@ def _eval(ctx, st, rows, space_t, gen_space, kind, n, h, scale, am, ph, before):
             psi = st.psi(space_t).numpy().copy()
             p1 = st.probability(space_t, 1.0).numpy().copy()
             Z = float(st.normalization(gen_space))
-            fin = np.isfinite(p1) & (p1 > 0) & np.isfinite(amp) & (amp > 0)
+            # TINY: results in the subnormal range (below ~2.2e-308) carry fewer than 53 significant bits (4.9e-324 has ONE), so their
+            # logarithm is not -E to 1e-9; the log-domain comparisons are made on the rows whose value is a NORMAL double
+            TINY = 1e-290
+            fin = np.isfinite(p1) & (p1 > TINY) & np.isfinite(amp) & (amp > 0)
             modsq = psi[0] ** 2 + psi[1] ** 2
-            fin2 = fin & np.isfinite(modsq) & (modsq > 0)
+            fin2 = fin & np.isfinite(modsq) & (modsq > TINY)
             ctx.count("overflow_regime:" + ("all_rows_finite" if fin.all() else "some_rows_inf_or_0"))
             ltol = lambda x: 1e-9 * (1.0 + abs(x))  # noqa: E731
             ctx.oracle("no NaN beyond the exp domain", not (np.isnan(amp).any() or np.isnan(p1).any() or np.isnan(psi).any() or np.isnan(Z)), case,
@@ -133,12 +163,12 @@ def _eval(ctx, st, rows, space_t, gen_space, kind, n, h, scale, am, ph, before):
                 ctx.oracle("positive real nonneg (overflow regime)", bool(np.all(psi[1] == 0) and np.all(psi[0] >= 0)), case, sig="pos/real-nonneg", theorem="C01_positive_real_pos")
             if model is not None:
                 mamp, mp1 = mget("amplitude"), mget("prob1")
-                mfin = fin & np.isfinite(mp1) & (mp1 > 0) & np.isfinite(mamp) & (mamp > 0)
+                mfin = fin & np.isfinite(mp1) & (mp1 > TINY) & np.isfinite(mamp) & (mamp > 0)
                 sc = float(np.max(np.abs(E))) + 1
                 ctx.point("log amplitude", "property", np.log(amp[mfin]), np.log(mamp[mfin]), case, scale=sc, theorem=THEOREMS["amplitude"], sig=f"{kind}/log/amplitude-model")
                 ctx.point("log probability", "property", np.log(p1[mfin]), np.log(mp1[mfin]), case, scale=sc, theorem=THEOREMS["probability"], sig=f"{kind}/log/probability-model")
                 mm = mget("psi_re") ** 2 + mget("psi_im") ** 2
-                mfin2 = fin2 & np.isfinite(mm) & (mm > 0)
+                mfin2 = fin2 & np.isfinite(mm) & (mm > TINY)
                 ctx.point("log |psi|^2", "property", np.log(modsq[mfin2]), np.log(mm[mfin2]), case, scale=sc, theorem=THEOREMS["psi"], sig=f"{kind}/log/psi-model")
                 ctx.point("psi direction", "property", np.r_[psi[0][mfin2], psi[1][mfin2]] / np.sqrt(np.r_[modsq[mfin2], modsq[mfin2]]),
                           np.r_[mget("psi_re")[mfin2], mget("psi_im")[mfin2]] / np.sqrt(np.r_[mm[mfin2], mm[mfin2]]), case, scale=1.0,
@@ -149,9 +179,20 @@ def _eval(ctx, st, rows, space_t, gen_space, kind, n, h, scale, am, ph, before):
         return
     amp = st.amplitude(space_t).numpy().copy()
     psi = st.psi(space_t).numpy().copy()
-    p1 = st.probability(space_t, 1.0).numpy().copy()
-    Z = float(st.normalization(gen_space))
-    pZ = st.probability(space_t, Z).numpy().copy()
+    Zt = st.normalization(gen_space)
+    Z = float(Zt)
+    if A is None or A.aseed is None:
+        p1 = st.probability(space_t, 1.0).numpy().copy()
+        pZ = st.probability(space_t, Z).numpy().copy()
+    else:
+        # the normalisation handed to probability as the objects callers have in hand: the 0-d tensor normalization() returned, a Python
+        # float, a numpy float; Z = 1 as float / int / default; keyword or positional
+        one = A.choice(["default", 1.0, 1, np.float64(1.0), torch.tensor(1.0, dtype=torch.double)])
+        zform = A.choice(["tensor", "float", "np.float64"])
+        Zo = {"tensor": Zt, "float": Z, "np.float64": np.float64(Z)}[zform]
+        ctx.count(f"argform/Z given as {zform}"); ctx.count(f"argform/Z=1 given as {type(one).__name__ if not isinstance(one, str) else one}")
+        p1 = (st.probability(space_t) if isinstance(one, str) else st.probability(space_t, Z=one) if A.coin(0.5) else st.probability(space_t, one)).numpy().copy()
+        pZ = (st.probability(space_t, Z=Zo) if A.coin(0.5) else st.probability(space_t, Zo)).numpy().copy()
     if model is not None:
         sc = float(np.max(p1))
         ctx.point("amplitude", "property", amp, mget("amplitude"), case, scale=np.sqrt(sc), theorem=THEOREMS["amplitude"], sig=f"{kind}/amplitude")
@@ -246,11 +287,11 @@ def run(ctx):
     for (kind, n, h, scale, am, ph) in gen_cases(ctx, ctx.tier == "thorough"):
         am2 = qc.rand_rbm_params(ctx.rng, n, h, min(scale, 3.0) if scale else 0.5)
         ph2 = qc.rand_rbm_params(ctx.rng, n, h, 1.0) if kind == "cplx" else None
-        one_case(ctx, kind, n, h, scale, am, ph, am2=am2, ph2=ph2)
+        one_case(ctx, kind, n, h, scale, am, ph, am2=am2, ph2=ph2, aseed=af.draw_aseed(ctx.rng))
     for (kind, n, h, scale, am, ph) in overflow_probes(ctx, ctx.tier == "thorough"):
         am2 = qc.rand_rbm_params(ctx.rng, n, h, scale)
         ph2 = qc.rand_rbm_params(ctx.rng, n, h, 1.0) if kind == "cplx" else None
-        one_case(ctx, kind, n, h, scale, am, ph, am2=am2, ph2=ph2)
+        one_case(ctx, kind, n, h, scale, am, ph, am2=am2, ph2=ph2, aseed=af.draw_aseed(ctx.rng))
 
 
 def search(ctx):
@@ -260,10 +301,10 @@ def search(ctx):
         for (kind, n, h, scale, am, ph) in gen_cases(ctx, True):
             am2 = qc.rand_rbm_params(ctx.rng, n, h, 1.0)
             ph2 = qc.rand_rbm_params(ctx.rng, n, h, 1.0) if kind == "cplx" else None
-            one_case(ctx, kind, n, h, scale, am, ph, am2=am2, ph2=ph2)
+            one_case(ctx, kind, n, h, scale, am, ph, am2=am2, ph2=ph2, aseed=af.draw_aseed(ctx.rng))
     finally:
         ctx.driver = drv
 
 
 def replay(ctx, case):
-    one_case(ctx, case["kind"], case["n"], case["h"], case["scale"], case["am"], case["ph"], am2=case.get("am2"), ph2=case.get("ph2"))
+    one_case(ctx, case["kind"], case["n"], case["h"], case["scale"], case["am"], case["ph"], am2=case.get("am2"), ph2=case.get("ph2"), aseed=case.get("aseed"))
